@@ -13,6 +13,11 @@ search: oracles written from the property statement, on the real code in floats 
   `pdhg_fejer_diag_monotone` — positive steps, |Sigma^(1/2) A T^(1/2)| <= 1 — are checked on every instance it
   runs on, and exactly, via `metricPSD_scalar` / `metricPSD_abs_sums`, on every PDHG case of the correspondence),
   the one-step inequality D_k + R_(k-1) <= D_(k-1) of `pdhg_fejer_run_diag`, convergence.
+Both parts run on the caller's arrays in every shape (1-3 axes) and memory layout (C, Fortran, transposed, strided,
+reversed views; operators handing back C / Fortran / reused-buffer results; prox objects or in-place prox functions):
+the operators act on the row-major flattening, which is the vector the model and the theorems talk about.  The
+search also starts GradientMethod where grad f is exactly zero but f + g is not minimal (`search_zero_grad`) and
+PDHG from exact zeros, and sweeps all layouts deterministically (`search_layouts`).
 """
 import json
 import math
@@ -178,26 +183,108 @@ def build_vec(c, name):
     return conv(c["mode"])[1](c[name])
 
 
-def build_prox(spec, size, mode):
+# ---- variables of any shape, held in memory in any way -----------------------------------------
+# The property quantifies over the caller's ARRAYS, not over 1-D C-contiguous buffers: a variable is an n-d
+# array whose logical (row-major) flattening is the vector of the theory, whatever its strides are.
+LAYOUTS = ("C", "F", "T", "strided", "rev")   # memory layout of a caller's array
+OUTS = ("C", "F", "buf")                      # what an operator hands back: fresh C / fresh Fortran / one reused buffer
+PROXK = ("obj", "inplace")                    # sigpy.prox object / plain function that works in place and returns its input
+
+
+def shapes_of(n):
+    """all shapes with <= 3 axes and n entries"""
+    out = [(n,)]
+    for a in range(1, n + 1):
+        if n % a == 0:
+            out.append((a, n // a))
+            for b in range(1, n // a + 1):
+                if (n // a) % b == 0:
+                    out.append((a, b, n // a // b))
+    return out
+
+
+def pick_shape(rng, n):
+    sh = shapes_of(n)
+    full = [t for t in sh if sum(1 for d in t if d > 1) >= 2]
+    return tuple(rng.choice(full)) if full and rng.random() < 0.7 else tuple(rng.choice(sh))
+
+
+def lay(flat, shape, layout):
+    """a NEW array of `shape` whose row-major flattening is `flat`, stored as `layout`:
+    C / F contiguous, the transpose of a C array, a step-2 view into a larger buffer, a reversed view"""
+    a = np.asarray(flat).reshape(shape)
+    if layout == "C":
+        return np.array(a, order="C", copy=True)
+    if layout == "F":
+        return np.array(a, order="F", copy=True)
+    if layout == "T":
+        return np.array(a.T, order="C", copy=True).T
+    if layout == "strided":
+        big = np.zeros(tuple(2 * d for d in a.shape), dtype=a.dtype)
+        v = big[tuple(slice(0, None, 2) for _ in a.shape)]
+        v[...] = a
+        return v
+    if layout == "rev":
+        sl = tuple(slice(None, None, -1) for _ in a.shape)
+        return np.array(a[sl], order="C", copy=True)[sl]
+    raise ValueError(layout)
+
+
+def flat(a):
+    """the vector of the theory: row-major flattening (a copy)"""
+    return np.array(a).reshape(-1)
+
+
+def wrap_op(fn, oshape, out="C"):
+    """operator on arrays from a map on flat vectors; `out`: how the result is handed back"""
+    st = {}
+
+    def op(V):
+        r = fn(np.asarray(V).reshape(-1)).reshape(oshape)
+        if out == "F":
+            return np.array(r, order="F", copy=True)
+        if out == "buf":
+            if "b" not in st:
+                st["b"] = np.empty_like(r)
+            st["b"][...] = r
+            return st["b"]
+        return r
+    return op
+
+
+def wrap_prox(p, kind):
+    if p is None or kind == "obj":
+        return p
+
+    def f(alpha, v):  # a plain function that overwrites its input and returns it (the solvers accept functions)
+        v[...] = p(alpha, v)
+        return v
+    return f
+
+
+def build_prox(spec, shape, mode):
     from sigpy import prox
+    shape = tuple(shape) if isinstance(shape, (tuple, list)) else (shape,)
     sc = conv("exact" if mode == "exact" else "float")[0]
     k = spec[0]
     if k == "none":
         return None
     if k == "noop":
-        return prox.NoOp((size,))
+        return prox.NoOp(shape)
     if k == "l2":
-        return prox.L2Reg((size,), sc(spec[1]))
+        return prox.L2Reg(shape, sc(spec[1]))
     if k == "box":
-        return prox.BoxConstraint((size,), sc(spec[1]), sc(spec[2]))
+        return prox.BoxConstraint(shape, sc(spec[1]), sc(spec[2]))
     if k == "l1":
-        return prox.L1Reg((size,), sc(spec[1]))
+        return prox.L1Reg(shape, sc(spec[1]))
     raise ValueError(spec)
 
 
-def build_step(st, mode):
+def build_step(st, mode, shape=None, layout="C"):
     sc, ar = conv("exact" if mode == "exact" else "float")
-    return sc(st[1]) if st[0] == "s" else ar(st[1])
+    if st[0] == "s":
+        return sc(st[1])
+    return ar(st[1]) if shape is None else lay(ar(st[1]), shape, layout)
 
 
 def herm(A):
@@ -210,20 +297,24 @@ def make_alg(c):
     A = build_matrix(c)
     AH = herm(A)
     b = build_vec(c, "b")
-    x = build_vec(c, "x0")
+    xsh, ush = tuple(c.get("xshape") or (c["n"],)), tuple(c.get("ushape") or (c["m"],))
+    olay, pk = c.get("olay", "C"), c.get("proxk", "obj")
+    x = lay(build_vec(c, "x0"), xsh, c.get("xlay", "C"))
     sc = conv("exact" if c["mode"] == "exact" else "float")[0]
     if c["kind"] == "gm":
-        gradf = lambda v: AH @ (A @ v - b)  # noqa: E731
-        a = alg.GradientMethod(gradf, x, sc(c["alpha"]), proxg=build_prox(c["prox"], c["n"], c["mode"]),
+        gradf = wrap_op(lambda v: AH @ (A @ v - b), xsh, olay)
+        a = alg.GradientMethod(gradf, x, sc(c["alpha"]), proxg=wrap_prox(build_prox(c["prox"], xsh, c["mode"]), pk),
                                accelerate=bool(c["accel"]), max_iter=10 ** 9)
         if c["mode"] == "exact" and c["accel"]:
             a.t = Q(a.t)  # representation only: the int the constructor stored, as an exact scalar
         return a, x, None
-    u = build_vec(c, "u0")
-    proxfc = prox.L2Reg((c["m"],), sc("1"), y=-b)
-    proxg = build_prox(c["proxg"], c["n"], c["mode"])
-    a = alg.PrimalDualHybridGradient(proxfc, proxg, lambda v: A @ v, lambda w: AH @ w, x, u,
-                                     build_step(c["tau"], c["mode"]), build_step(c["sigma"], c["mode"]),
+    u = lay(build_vec(c, "u0"), ush, c.get("ulay", "C"))
+    proxfc = wrap_prox(prox.L2Reg(ush, sc("1"), y=(-b).reshape(ush)), pk)
+    proxg = wrap_prox(build_prox(c["proxg"], xsh, c["mode"]), pk)
+    a = alg.PrimalDualHybridGradient(proxfc, proxg, wrap_op(lambda v: A @ v, ush, olay),
+                                     wrap_op(lambda w: AH @ w, xsh, olay), x, u,
+                                     build_step(c["tau"], c["mode"], xsh, c.get("tlay", "C")),
+                                     build_step(c["sigma"], c["mode"], ush, c.get("tlay", "C")),
                                      gamma_primal=sc(c["gp"]) if F(c["gp"]) != 0 else 0,
                                      gamma_dual=sc(c["gd"]) if F(c["gd"]) != 0 else 0, max_iter=10 ** 9)
     return a, x, u
@@ -264,8 +355,8 @@ def run_impl(c):
                 st["tau"], st["sigma"] = step_val(a.tau), step_val(a.sigma)
             else:
                 st["u"], st["xe"] = np.array(a.u).ravel().copy(), np.array(a.x_ext).ravel().copy()
-                st["tau"] = np.atleast_1d(np.array(a.tau, dtype=float)).copy()
-                st["sigma"] = np.atleast_1d(np.array(a.sigma, dtype=float)).copy()
+                st["tau"] = np.atleast_1d(np.array(a.tau, dtype=float)).reshape(-1).copy()
+                st["sigma"] = np.atleast_1d(np.array(a.sigma, dtype=float)).reshape(-1).copy()
         out.append(st)
     return out, list(SQLOG)
 
@@ -417,9 +508,21 @@ def frob2(rows):
 def gen_case(rng, mode, kind=None):
     kind = kind or rng.choice(["gm", "pd"])
     m, n = rng.randint(1, 4), rng.randint(1, 3)
+    nd = rng.random() < 0.5
+    if nd:  # enough entries for a variable with two non-trivial axes
+        n, m = rng.choice((4, 4, 6)), rng.choice((2, 3, 4, 4, 6))
+    def kmax(k):  # the model runs the float cases over exact rationals: keep the larger instances short
+        return k if not nd else (10 if mode == "float" else 7)
     rows = gen_matrix(rng, m, n)
     c = dict(kind=kind, mode=mode, m=m, n=n, A=[fs(v) for r in rows for v in r],
              b=[fs(rfrac(rng)) for _ in range(m)], x0=[fs(rfrac(rng)) for _ in range(n)])
+    if nd or rng.random() < 0.3:
+        # the caller's arrays: any shape with these many entries, any memory layout; operators act on the
+        # row-major flattening and hand their result back C-ordered, Fortran-ordered or in a reused buffer
+        c.update(xshape=list(pick_shape(rng, n)), xlay=rng.choice(LAYOUTS), olay=rng.choice(OUTS),
+                 proxk=rng.choice(PROXK))
+        if kind == "pd":
+            c.update(ushape=list(pick_shape(rng, m)), ulay=rng.choice(LAYOUTS), tlay=rng.choice(("C", "F")))
     nrm = frob2(rows)
     if mode == "complex":
         rows_i = gen_matrix(rng, m, n)
@@ -438,7 +541,7 @@ def gen_case(rng, mode, kind=None):
         c["alpha"] = fs(F(rng.choice((1, 1, 1, 2, 3)), rng.choice((1, 2, 3))) / nrm)
         c["prox"] = rng.choice(proxes)
         c["accel"] = rng.random() < 0.6
-        c["k"] = rng.randint(2, 6 if mode == "exact" else 25)
+        c["k"] = rng.randint(2, 6 if mode == "exact" else kmax(25))
         return c
     c["u0"] = [fs(rfrac(rng)) for _ in range(m)]
     if mode == "complex":
@@ -463,7 +566,7 @@ def gen_case(rng, mode, kind=None):
         c["gp"] = c["proxg"][1] if rng.random() < 0.7 else fs(F(c["proxg"][1]) / 2)
     elif acc == "dual":
         c["gd"] = rng.choice(["1", "1/2", "3/4"])
-    c["k"] = rng.randint(2, 5 if mode == "exact" else 20)
+    c["k"] = rng.randint(2, 5 if mode == "exact" else kmax(20))
     return c
 
 
@@ -526,6 +629,7 @@ def _stream(ctx, cases, stream):
         tag = "%s:%s:%s" % (c["kind"], c["mode"], ("accel" if c.get("accel") else "plain") if c["kind"] == "gm"
                              else ("gp" if F(c["gp"]) > 0 else "gd" if F(c["gd"]) > 0 else "const") + ":" + c["tau"][0] + c["sigma"][0])
         ctx.count(tag)
+        ctx.count("layout:x=%s%s" % (c.get("xlay", "C"), ":nd" if sum(1 for d in c.get("xshape", ()) if d > 1) >= 2 else ""))
         if c["kind"] == "pd":
             hyp_note(hyp_exact(c), canon(c)[:300])
         ctx.case(canon(c), sample=dict(line=ln[:240], reply=r[:160]) if ctx.evaluations % 23 == 0 else None)
@@ -539,7 +643,9 @@ def _stream(ctx, cases, stream):
 def correspond(ctx):
     warm_up()
     ctx.rule = ("case = (solver, m×n rational matrix A, b, x0[, u0], step(s) scalar or array, prox kind ∈ "
-                "{None, NoOp, L2Reg, BoxConstraint, L1Reg}, accelerate / gamma_primal / gamma_dual, number of updates); "
+                "{None, NoOp, L2Reg, BoxConstraint, L1Reg} as object or in-place function, accelerate / gamma_primal / "
+                "gamma_dual, number of updates, shape (1–3 axes) and memory layout (C, Fortran, transposed, strided, "
+                "reversed view) of the caller's x / u / step arrays, layout of the operator outputs); "
                 "distinct by the full JSON case; every case runs ≥ 2 updates of the real class and compares the whole "
                 "state (x, z, t | x, u, x_ext, tau, sigma; resid) after each")
     ctx.assumptions += [
@@ -647,8 +753,77 @@ def real_prox(gspec, n):
 
 
 def objective(P, x):
+    x = flat(x)
     r = P["A"] @ x - P["b"]
     return 0.5 * float(np.vdot(r, r).real) + g_value(P["gspec"], x)
+
+
+def np_prox(gspec, alpha, v):
+    """prox of alpha*g in plain numpy, from the definitions (used only to compute comparison points)"""
+    k = gspec[0]
+    if k in ("none", "noop"):
+        return v
+    if k == "l2":
+        return v / (1 + float(F(gspec[1])) * alpha)
+    if k == "l1":
+        t = float(F(gspec[1])) * alpha
+        mag = np.abs(v)
+        return np.where(mag > t, (1 - t / np.maximum(mag, 1e-300)) * v, 0).astype(v.dtype)
+    if k == "box":
+        return np.clip(v.real, float(F(gspec[1])), float(F(gspec[2]))).astype(v.dtype)
+    raise ValueError(gspec)
+
+
+def reference_point(A, b, gspec, iters=3000):
+    """a comparison point w with small F(w): plain-numpy FISTA.  The rate theorems hold against EVERY w with
+    finite F(w), so its accuracy only affects how sharp the demanded bound is, never its validity."""
+    AH = A.conj().T
+    L = max(float(np.linalg.eigvalsh(AH @ A)[-1]), 1e-12)
+    x = np_prox(gspec, 1 / L, np.zeros(A.shape[1], dtype=A.dtype))
+    z, t = x.copy(), 1.0
+    for _ in range(iters):
+        xn = np_prox(gspec, 1 / L, z - (AH @ (A @ z - b)) / L)
+        tn = (1 + math.sqrt(1 + 4 * t * t)) / 2
+        z = xn + (t - 1) / tn * (xn - x)
+        x, t = xn, tn
+    return x
+
+
+def dyadic(nr, cplx, *sh):
+    """entries k/4, |k| <= 6: products and short sums of them are exact in binary floating point"""
+    a = nr.randint(-6, 7, size=sh) / 4.0
+    return a + 1j * (nr.randint(-6, 7, size=sh) / 4.0) if cplx else a
+
+
+def zero_grad_instance(rng, fam, gspec, cplx):
+    """(P, x0) with grad f(x0) = Aᴴ(A x0 - b) EXACTLY zero in floating point although x0 is (in general) not a
+    minimiser of f + g — a warm start at the minimiser of the smooth part:
+      denoise  A = I, x0 = b                      (½|x-b|² + g, started at the data; x* = prox_g(b) in closed form)
+      homog    b = 0, x0 = 0                      (½|Ax|² + g; for a box that excludes 0 the start is infeasible)
+      dyadic   A, x0 with entries k/4, b = A x0   (computed without rounding)"""
+    nr = np.random.RandomState(rng.randint(0, 2 ** 31 - 1))
+    n = rng.randint(2, 6)
+    dt = complex if cplx else float
+    if fam == "denoise":
+        A = np.eye(n, dtype=dt)
+        b = (nr.randn(n) + (1j * nr.randn(n) if cplx else 0)).astype(dt) * rng.choice((0.3, 1.0, 3.0))
+        x0 = b.copy()
+        xs = np_prox(gspec, 1.0, b)
+    else:
+        m = n + rng.randint(0, 2)
+        if fam == "homog":
+            A = (nr.randn(m, n) + (1j * nr.randn(m, n) if cplx else 0)).astype(dt)
+            x0, b = np.zeros(n, dtype=dt), np.zeros(m, dtype=dt)
+        else:
+            A = dyadic(nr, cplx, m, n).astype(dt)
+            if np.linalg.matrix_rank(A) < n:
+                A[:n, :n] += 2 * np.eye(n)
+            x0 = dyadic(nr, cplx, n).astype(dt)
+            b = A @ x0
+        xs = reference_point(A, b, gspec)
+    if np.any(A.conj().T @ (A @ x0 - b)):
+        return None
+    return dict(A=A, b=b, xs=xs.astype(dt), us=(A @ xs - b).astype(dt), gspec=gspec, structured="zero-grad:" + fam), x0
 
 
 def case_of(P, extra):
@@ -664,6 +839,16 @@ def case_of(P, extra):
              gspec=P["gspec"], structured=P.get("structured"), identity_kind=P.get("identity_kind"))
     d.update(extra)
     return d
+
+
+def gm_layout(rng, n, shape=None):
+    return dict(xshape=list(shape or pick_shape(rng, n)), x=rng.choice(LAYOUTS), out=rng.choice(OUTS), prox=rng.choice(PROXK))
+
+
+def pd_layout(rng, n, m, same_shape=False):
+    xsh = pick_shape(rng, n)
+    return dict(xshape=list(xsh), ushape=list(xsh if same_shape else pick_shape(rng, m)), x=rng.choice(LAYOUTS),
+                u=rng.choice(LAYOUTS), out=rng.choice(OUTS), steps=rng.choice(("C", "F")), prox=rng.choice(PROXK))
 
 
 def nesterov_instance(n):
@@ -687,25 +872,33 @@ def P_of(d):
                 identity_kind=d.get("identity_kind") or "lambda")
 
 
-def oracle_gm(ctx, P, x0, c_alpha, accel, K, origin, w_extra=None):
+def oracle_gm(ctx, P, x0, c_alpha, accel, K, origin, w_extra=None, lo=None):
     """monotone objective (not accelerated) and the rate bounds against every comparison point w
-    (the theorems hold for every w, in particular the planted minimiser)"""
+    (the theorems hold for every w, in particular the planted minimiser).
+    x0: the start as a flat vector; lo: shape / memory layout of the caller's array, layout of the gradient
+    the caller's gradf returns, kind of prox (see LAYOUTS, OUTS, PROXK) — none of which the guarantees depend on.
+    The objective is evaluated on the CALLER's array."""
     from sigpy import alg
     A, b = P["A"], P["b"]
     AH = A.conj().T
     L = float(np.linalg.eigvalsh(AH @ A)[-1])
     alpha = c_alpha / L
-    x = x0.copy()
+    lo = lo or dict(xshape=[len(x0)], x="C", out="C", prox="obj")
+    xsh = tuple(lo["xshape"])
+    x = lay(x0, xsh, lo["x"])
     xc = x
-    a = alg.GradientMethod(lambda v: AH @ (A @ v - b), x, alpha, proxg=real_prox(P["gspec"], len(x0))
+    a = alg.GradientMethod(wrap_op(lambda v: AH @ (A @ v - b), xsh, lo["out"]), x, alpha,
+                           proxg=wrap_prox(real_prox(P["gspec"], xsh), lo["prox"])
                            if P["gspec"][0] != "none" else None, accelerate=accel, max_iter=K)
     ws = [P["xs"]] + ([w_extra] if w_extra is not None else [])
     Fw = [objective(P, w) for w in ws]
     d0 = [float(np.linalg.norm(x0 - w)) ** 2 for w in ws]
     Fprev = objective(P, x0)
-    scale = 1 + abs(Fprev)
+    scale = 1 + (abs(Fprev) if np.isfinite(Fprev) else 0.0) + max(abs(v) for v in Fw)
     case = case_of(P, dict(oracle="gm", x0_re=x0.real.tolist(), x0_im=x0.imag.tolist() if np.iscomplexobj(x0) else None,
-                           c_alpha=c_alpha, accel=accel, K=K))
+                           c_alpha=c_alpha, accel=accel, K=K, layout=lo,
+                           w_extra_re=w_extra.real.tolist() if w_extra is not None else None,
+                           w_extra_im=w_extra.imag.tolist() if w_extra is not None and np.iscomplexobj(w_extra) else None))
     ok = True
     for k in range(1, K + 1):
         try:
@@ -718,7 +911,7 @@ def oracle_gm(ctx, P, x0, c_alpha, accel, K, origin, w_extra=None):
             ctx.fail("C13:gm:inplace", "GradientMethod no longer updates the caller's array in place", case,
                      observed="alg.x is not x after update %d" % k, expected="alg.x is x", origin=origin)
             return False
-        Fk = objective(P, a.x)
+        Fk = objective(P, xc)
         if not accel and Fk > Fprev + 1e-10 * scale:
             ctx.fail("C13:gm:descent", "composite objective increased in a non-accelerated update with alpha <= 1/L",
                      case, observed="F(x_%d)=%.17g > F(x_%d)=%.17g" % (k, Fk, k - 1, Fprev), expected="non-increasing",
@@ -739,35 +932,41 @@ def weighted(d, w):
     return float(np.sum(np.abs(d) ** 2 / w))
 
 
-def oracle_pd(ctx, P, x0, u0, tau, sigma, gp, gd, K, what, origin):
+def oracle_pd(ctx, P, x0, u0, tau, sigma, gp, gd, K, what, origin, lo=None):
     """what: 'saddle' start at the saddle point, must stay; 'fejer' constant steps: coupled distance on
     (x before the primal step, u after the dual step) never increases; 'converge' distance to the saddle
-    point after K updates"""
+    point after K updates.
+    x0, u0, tau, sigma: flat vectors (or scalars); lo: shapes / memory layouts of the caller's x, u and step arrays,
+    layout of the operator outputs, kind of prox.  Everything is measured on the CALLER's arrays."""
     from sigpy import alg, prox
     A, b, xs, us = P["A"], P["b"], P["xs"], P["us"]
     AH = A.conj().T
     n, m = len(xs), len(us)
-    x, u = x0.copy(), u0.copy()
+    lo = lo or dict(xshape=[n], ushape=[m], x="C", u="C", out="C", steps="C", prox="obj")
+    xsh, ush = tuple(lo["xshape"]), tuple(lo["ushape"])
+    x, u = lay(x0, xsh, lo["x"]), lay(u0, ush, lo["u"])
     xc, uc = x, u
-    tau0 = np.array(tau, dtype=float).copy() if isinstance(tau, np.ndarray) else float(tau)
-    sig0 = np.array(sigma, dtype=float).copy() if isinstance(sigma, np.ndarray) else float(sigma)
-    Aop, AHop = (lambda v: A @ v), (lambda w: AH @ w)
+    tau0 = np.array(tau, dtype=float).reshape(-1).copy() if isinstance(tau, np.ndarray) else float(tau)
+    sig0 = np.array(sigma, dtype=float).reshape(-1).copy() if isinstance(sigma, np.ndarray) else float(sigma)
+    Aop, AHop = wrap_op(lambda v: A @ v, ush, lo["out"]), wrap_op(lambda w: AH @ w, xsh, lo["out"])
     if P.get("structured") == "identity":
         # operators that return their ARGUMENT (sigpy.linop.Identity, lambda v: v): legal, and the only way to
         # see whether the update scales or accumulates into the operator's output in place
         import sigpy as sp
         if P.get("identity_kind", "lambda") == "linop":
-            Aop = AHop = sp.linop.Identity([n])
+            Aop = AHop = sp.linop.Identity(list(xsh))
         else:
             Aop = AHop = (lambda v: v)
-    a = alg.PrimalDualHybridGradient(prox.L2Reg((m,), 1.0, y=-b), real_prox(P["gspec"], n), Aop,
-                                     AHop, x, u, tau.copy() if isinstance(tau, np.ndarray) else tau,
-                                     sigma.copy() if isinstance(sigma, np.ndarray) else sigma,
+    a = alg.PrimalDualHybridGradient(wrap_prox(prox.L2Reg(ush, 1.0, y=(-b).reshape(ush)), lo["prox"]),
+                                     wrap_prox(real_prox(P["gspec"], xsh), lo["prox"]), Aop, AHop, x, u,
+                                     lay(tau0, xsh, lo["steps"]) if isinstance(tau, np.ndarray) else tau,
+                                     lay(sig0, ush, lo["steps"]) if isinstance(sigma, np.ndarray) else sigma,
                                      gamma_primal=gp, gamma_dual=gd, max_iter=K)
     case = case_of(P, dict(oracle="pd", what=what, x0_re=x0.real.tolist(), x0_im=x0.imag.tolist() if np.iscomplexobj(x0) else None,
                            u0_re=u0.real.tolist(), u0_im=u0.imag.tolist() if np.iscomplexobj(u0) else None,
                            tau=tau0.tolist() if isinstance(tau0, np.ndarray) else tau0,
-                           sigma=sig0.tolist() if isinstance(sig0, np.ndarray) else sig0, gp=gp, gd=gd, K=K))
+                           sigma=sig0.tolist() if isinstance(sig0, np.ndarray) else sig0, gp=gp, gd=gd, K=K, layout=lo,
+                           conv_tol=P.get("conv_tol")))
     scale = 1 + float(np.linalg.norm(xs)) + float(np.linalg.norm(us))
     Dprev = None
     tw = tau0 if isinstance(tau0, np.ndarray) else np.full(n, tau0)
@@ -784,7 +983,7 @@ def oracle_pd(ctx, P, x0, u0, tau, sigma, gp, gd, K, what, origin):
     e0 = nx0 / tmin ** 2 + nu0 / (tmin * smin)      # |x0-x*|²/τ0² + |u0-u*|²/(τ0σ0)
     f0 = nu0 / smin ** 2 + nx0 / (tmin * smin)
     for k in range(1, K + 1):
-        x_before = a.x.copy()
+        x_before = flat(xc)
         try:
             a.update()
         except Exception as e:  # noqa  -- a valid problem must run
@@ -796,8 +995,9 @@ def oracle_pd(ctx, P, x0, u0, tau, sigma, gp, gd, K, what, origin):
                      observed="alg.x is x: %s, alg.u is u: %s after update %d" % (a.x is xc, a.u is uc, k),
                      expected="both identical", origin=origin)
             return False
+        xk, uk = flat(xc), flat(uc)
         if what == "saddle":
-            dev = max(float(np.max(np.abs(a.x - xs))), float(np.max(np.abs(a.u - us))))
+            dev = max(float(np.max(np.abs(xk - xs))), float(np.max(np.abs(uk - us))))
             if not dev <= 1e-10 * scale:
                 ctx.fail("C13:pd:saddle-fixed", "iterates started at a saddle point move away from it", case,
                          observed="update %d: max deviation %.3g" % (k, dev), expected="<= 1e-10 (fixed point)", origin=origin)
@@ -806,15 +1006,15 @@ def oracle_pd(ctx, P, x0, u0, tau, sigma, gp, gd, K, what, origin):
             # Chambolle–Pock Alg. 2 (Thm 2 and its proof): |x_N - x*| <= tau_N * sqrt(|x0-x*|²/tau0² + |u0-u*|²/(tau0 sigma0));
             # mirrored for the dual variant.  Observed on the unchanged code: ratio <= 0.9; demanded: <= 2.
             if gp > 0:
-                err, lim, key = float(np.linalg.norm(a.x - xs)), 2 * float(np.max(np.abs(a.tau))) * math.sqrt(e0), "C13:pd:converge-accel-primal"
+                err, lim, key = float(np.linalg.norm(xk - xs)), 2 * float(np.max(np.abs(a.tau))) * math.sqrt(e0), "C13:pd:converge-accel-primal"
             else:
-                err, lim, key = float(np.linalg.norm(a.u - us)), 2 * float(np.max(np.abs(a.sigma))) * math.sqrt(f0), "C13:pd:converge-accel-dual"
+                err, lim, key = float(np.linalg.norm(uk - us)), 2 * float(np.max(np.abs(a.sigma))) * math.sqrt(f0), "C13:pd:converge-accel-dual"
             if not err <= lim + 1e-9 * scale:
                 ctx.fail(key, "accelerated PDHG: distance to the minimiser after N updates exceeds the O(step_N) guarantee", case,
                          observed="N=%d error %.6g" % (k, err), expected="<= %.6g" % lim, origin=origin)
                 return False
         if what == "fejer":
-            dx, du = x_before - xs, a.u - us
+            dx, du = x_before - xs, uk - us
             D = weighted(dx, tw) - 2 * float(np.vdot(du, A @ dx).real) + weighted(du, sw)
             if Dprev is not None and D > Dprev + 1e-10 * (1 + abs(Dprev)):
                 ctx.fail("C13:pd:fejer", "coupled step-size-weighted distance to a saddle point increased (constant steps)",
@@ -823,16 +1023,16 @@ def oracle_pd(ctx, P, x0, u0, tau, sigma, gp, gd, K, what, origin):
                 return False
             if Dprev is not None:
                 # pdhg_fejer_run_diag: D_k + R_{k-1} <= D_{k-1}, R the size of the previous update in the same metric
-                mx, mu = x_before - xprev, a.u - uprev
+                mx, mu = x_before - xprev, uk - uprev
                 R = weighted(mx, tw) - 2 * float(np.vdot(mu, A @ mx).real) + weighted(mu, sw)
                 if D + R > Dprev + 1e-10 * (1 + abs(Dprev)):
                     ctx.fail("C13:pd:fejer-step", "one-step Fejér inequality D_k + R_(k-1) <= D_(k-1) violated (constant steps)",
                              case, observed="update %d: D=%.17g R=%.17g previous D=%.17g" % (k, D, R, Dprev),
                              expected="D + R <= previous D", origin=origin)
                     return False
-            Dprev, xprev, uprev = D, x_before, a.u.copy()
+            Dprev, xprev, uprev = D, x_before, uk
     if what == "converge" and gp == 0 and gd == 0:
-        err = max(float(np.linalg.norm(a.x - xs)), float(np.linalg.norm(a.u - us)))
+        err = max(float(np.linalg.norm(flat(xc) - xs)), float(np.linalg.norm(flat(uc) - us)))
         if not err <= P["conv_tol"] * scale:
             ctx.fail("C13:pd:converge", "distance to the minimiser / saddle point after %d updates exceeds the guaranteed level" % K,
                      case, observed="error %.6g" % err, expected="<= %.6g" % (P["conv_tol"] * scale), origin=origin)
@@ -875,9 +1075,12 @@ def search_once(ctx, rng, origin, heavy):
         if gk[0] == "box":
             w_extra = np.clip(w_extra.real, -0.5, 0.75).astype(P["A"].dtype)
         for accel in (False, True):
-            ctx.case(("oracle-gm", n, m, tuple(gk), cplx, structured, accel))
+            lo = gm_layout(rng, n)
+            ctx.case(("oracle-gm", n, m, tuple(gk), cplx, structured, accel, canon(lo)))
             ctx.count("oracle:gm:%s:%s" % ("accel" if accel else "plain", gk[0]))
-            oracle_gm(ctx, P, x0, rng.choice((1.0, 1.0, 0.7, 0.25)), accel, 120 if not heavy else 400, origin, w_extra)
+            ctx.count("oracle:gm:layout:%s" % lo["x"])
+            oracle_gm(ctx, P, x0, rng.choice((1.0, 1.0, 0.7, 0.25)), accel, 120 if not heavy else 400, origin, w_extra, lo)
+    search_zero_grad(ctx, rng, origin, 0)
     # ---- PDHG
     gk = rng.choice([["noop"], ["l2", fs(F(rng.randint(2, 12), 8))], ["l1", fs(F(rng.randint(1, 12), 8))]]
                     + ([] if cplx else [["box", "-1/2", "3/4"]]))
@@ -893,16 +1096,19 @@ def search_once(ctx, rng, origin, heavy):
     P["conv_tol"] = 1e-6
     arr = rng.random() < 0.5
     tau, sigma = pd_steps(rng, P, arr)
-    x0 = (nrs.randn(n) + (1j * nrs.randn(n) if cplx else 0)).astype(P["A"].dtype)
-    u0 = (nrs.randn(m) + (1j * nrs.randn(m) if cplx else 0)).astype(P["A"].dtype)
+    # starts: generic, or exactly zero on either side (A x_ext = 0 / Aᴴu = 0 exactly in the first update)
+    x0 = ((nrs.randn(n) + (1j * nrs.randn(n) if cplx else 0)) * rng.choice((1.0, 1.0, 0.0))).astype(P["A"].dtype)
+    u0 = ((nrs.randn(m) + (1j * nrs.randn(m) if cplx else 0)) * rng.choice((1.0, 1.0, 0.0))).astype(P["A"].dtype)
     tagarr = "arr" if arr else "sc"
-    ctx.case(("oracle-pd", n, m, tuple(gk), cplx, arr))
+    lo = pd_layout(rng, n, m, same_shape=ident)
+    ctx.case(("oracle-pd", n, m, tuple(gk), cplx, arr, canon(lo)))
+    ctx.count("oracle:pd:layout:x=%s,u=%s" % (lo["x"], lo["u"]))
     ctx.count("oracle:pd:saddle:" + tagarr)
-    oracle_pd(ctx, P, P["xs"].copy(), P["us"].copy(), tau, sigma, 0, 0, 60, "saddle", origin)
+    oracle_pd(ctx, P, P["xs"].copy(), P["us"].copy(), tau, sigma, 0, 0, 60, "saddle", origin, lo)
     ctx.count("oracle:pd:fejer:" + tagarr)
-    oracle_pd(ctx, P, x0, u0, tau, sigma, 0, 0, 150, "fejer", origin)
+    oracle_pd(ctx, P, x0, u0, tau, sigma, 0, 0, 150, "fejer", origin, lo)
     ctx.count("oracle:pd:converge:" + tagarr)
-    oracle_pd(ctx, P, x0, u0, tau, sigma, 0, 0, 6000 if not heavy else 20000, "converge", origin)
+    oracle_pd(ctx, P, x0, u0, tau, sigma, 0, 0, 6000 if not heavy else 20000, "converge", origin, lo)
     # strong-convexity acceleration: g = lam/2|x|² (gamma_primal <= lam), f* = ½|u|²+<u,b> (gamma_dual <= 1)
     for j in range(3):
         gk2 = ["l2", fs(F(rng.randint(2, 12), 8))]
@@ -917,14 +1123,97 @@ def search_once(ctx, rng, origin, heavy):
         x2 = (nrs.randn(n2) + (1j * nrs.randn(n2) if c2 else 0)).astype(P2["A"].dtype)
         u2 = (nrs.randn(m2) + (1j * nrs.randn(m2) if c2 else 0)).astype(P2["A"].dtype)
         lam = float(F(gk2[1]))
-        ctx.case(("oracle-pd-accel-primal", n2, m2, gk2[1], c2, arr2))
+        lo2 = pd_layout(rng, n2, m2)
+        ctx.case(("oracle-pd-accel-primal", n2, m2, gk2[1], c2, arr2, canon(lo2)))
         ctx.count("oracle:pd:accel-primal:" + ("arr" if arr2 else "sc"))
         if j == 0:
-            oracle_pd(ctx, P2, P2["xs"].copy(), P2["us"].copy(), t2, s2, lam, 0, 40, "saddle", origin)
-        oracle_pd(ctx, P2, x2, u2, t2, s2, lam * rng.choice((1.0, 0.5)), 0, 3000, "converge", origin)
+            oracle_pd(ctx, P2, P2["xs"].copy(), P2["us"].copy(), t2, s2, lam, 0, 40, "saddle", origin, lo2)
+        oracle_pd(ctx, P2, x2, u2, t2, s2, lam * rng.choice((1.0, 0.5)), 0, 3000, "converge", origin, lo2)
     ctx.count("oracle:pd:accel-dual:" + tagarr)
-    oracle_pd(ctx, P, P["xs"].copy(), P["us"].copy(), tau, sigma, 0, 1.0, 40, "saddle", origin)
-    oracle_pd(ctx, P, x0, u0, tau, sigma, 0, rng.choice((1.0, 0.5)), 3000, "converge", origin)
+    oracle_pd(ctx, P, P["xs"].copy(), P["us"].copy(), tau, sigma, 0, 1.0, 40, "saddle", origin, lo)
+    oracle_pd(ctx, P, x0, u0, tau, sigma, 0, rng.choice((1.0, 0.5)), 3000, "converge", origin, lo)
+
+
+ZG_SPECS = [["l1", "1/2"], ["l2", "3/4"], ["box", "-1/2", "3/4"], ["box", "1/2", "3/2"], ["box", "-2", "-1/4"]]
+
+
+def search_zero_grad(ctx, rng, origin, reps):
+    """GradientMethod started where grad f is EXACTLY zero but f + g is not minimal (warm start at the minimiser
+    of the smooth part, x0 = 0 for homogeneous data, an infeasible start for a box): the prox step must still
+    be taken — descent and both rate bounds from the first update on, for every g, real and complex."""
+    todo = [(fam, gk) for fam in ("denoise", "homog", "dyadic") for gk in ZG_SPECS] * reps if reps else \
+        [(rng.choice(("denoise", "homog", "dyadic")), rng.choice(ZG_SPECS))]
+    for fam, gk in todo:
+        cplx = gk[0] != "box" and rng.random() < 0.4
+        gk = [gk[0]] + ([fs(F(rng.randint(1, 12), 8))] if gk[0] in ("l1", "l2") else gk[1:])
+        r = zero_grad_instance(rng, fam, gk, cplx)
+        if r is None:
+            ctx.count("oracle:gm:zero-grad:inexact-skipped")
+            continue
+        P, x0 = r
+        w_extra = np_prox(gk, 1.0, P["xs"] * 0.5)   # another feasible comparison point
+        for accel in (False, True):
+            lo = gm_layout(rng, len(x0))
+            ctx.case(("oracle-gm-zero-grad", fam, tuple(gk), cplx, accel, len(x0), canon(lo)))
+            ctx.count("oracle:gm:zero-grad:%s:%s:%s" % (fam, gk[0], "accel" if accel else "plain"))
+            oracle_gm(ctx, P, x0, rng.choice((1.0, 1.0, 0.5)), accel, 80, origin, w_extra, lo)
+
+
+def search_layouts(ctx, rng, origin):
+    """every memory layout of the caller's arrays × every way an operator hands back its result, on small planted
+    instances with variables that have two non-trivial axes: GradientMethod (± accelerate) and PDHG (scalar and
+    array steps; saddle point fixed, Fejér monotone, accelerated variants)."""
+    nrs = np.random.RandomState(rng.randint(0, 2 ** 31 - 1))
+    # ---- gradient method
+    for cplx in (False, True):
+        xsh = rng.choice([(2, 3), (3, 2), (2, 2), (2, 1, 3), (2, 2, 2)])
+        n = int(np.prod(xsh))
+        gk = rng.choice([["none"], ["l2", "1/2"], ["l1", "3/8"]] + ([] if cplx else [["box", "-1/2", "3/4"]]))
+        P = planted(rng, n + rng.randint(0, 2), n, gk, cplx, cond=rng.choice((2.0, 10.0)))
+        if P is None:
+            continue
+        x0 = (nrs.randn(n) + (1j * nrs.randn(n) if cplx else 0)).astype(P["A"].dtype)
+        for xl in LAYOUTS:
+            for out in OUTS:
+                for accel in (False, True):
+                    lo = dict(xshape=list(xsh), x=xl, out=out, prox=rng.choice(PROXK))
+                    ctx.case(("oracle-gm-layout", tuple(xsh), tuple(gk), cplx, accel, xl, out))
+                    ctx.count("oracle:gm:layout-sweep:%s/%s" % (xl, out))
+                    oracle_gm(ctx, P, x0, 1.0, accel, 40, origin, None, lo)
+    # ---- PDHG
+    for cplx, ident in ((False, False), (True, False), (False, True)):
+        xsh = tuple(rng.choice([(2, 2), (2, 3), (3, 2)]))
+        ush = xsh if ident else tuple(rng.choice([(2, 3), (3, 2), (2, 2, 2), (3, 3)]))
+        n, m = int(np.prod(xsh)), int(np.prod(ush))
+        if m < n:
+            xsh, ush, n, m = ush, xsh, m, n
+        gk = rng.choice([["noop"], ["l2", "1/2"], ["l1", "3/8"]] + ([] if cplx else [["box", "-1/2", "3/4"]]))
+        P = planted(rng, m, n, gk, cplx, cond=rng.choice((1.5, 3.0)), structured="identity" if ident else None)
+        if P is None:
+            continue
+        if ident:
+            P["identity_kind"] = rng.choice(["lambda", "linop"])
+        P["conv_tol"] = 1e-6
+        x0 = (nrs.randn(n) + (1j * nrs.randn(n) if cplx else 0)).astype(P["A"].dtype)
+        u0 = (nrs.randn(m) + (1j * nrs.randn(m) if cplx else 0)).astype(P["A"].dtype)
+        P2 = None if ident else planted(rng, m, n, ["l2", "3/4"], cplx, cond=2.0)
+        for xl in LAYOUTS:
+            for ul in LAYOUTS:
+                for arr in (False, True):
+                    tau, sigma = pd_steps(rng, P, arr)
+                    lo = dict(xshape=list(xsh), ushape=list(ush), x=xl, u=ul, out=rng.choice(OUTS),
+                              steps=rng.choice(("C", "F")), prox=rng.choice(PROXK))
+                    ctx.case(("oracle-pd-layout", xsh, ush, tuple(gk), cplx, ident, xl, ul, arr))
+                    ctx.count("oracle:pd:layout-sweep:x=%s,u=%s:%s" % (xl, ul, "arr" if arr else "sc"))
+                    oracle_pd(ctx, P, P["xs"].copy(), P["us"].copy(), tau, sigma, 0, 0, 15, "saddle", origin, lo)
+                    oracle_pd(ctx, P, x0, u0, tau, sigma, 0, 0, 50, "fejer", origin, lo)
+                    if P2 is not None and xl != ul:
+                        # strong-convexity acceleration (the step arrays are rescaled in place every update)
+                        t2, s2 = pd_steps(rng, P2, arr)
+                        if rng.random() < 0.5:
+                            oracle_pd(ctx, P2, x0, u0, t2, s2, 0.75, 0, 400, "converge", origin, lo)
+                        else:
+                            oracle_pd(ctx, P2, x0, u0, t2, s2, 0, 1.0, 400, "converge", origin, lo)
 
 
 def search_worstcase(ctx, rng, origin):
@@ -960,9 +1249,13 @@ def oracle_on_case(ctx, c, origin):
     x0 = np.array(build_vec(cc, "x0"), dtype=P["A"].dtype)
     if gk[0] == "box":
         x0 = np.clip(x0.real, float(F(gk[1])), float(F(gk[2]))).astype(P["A"].dtype)
+    xsh, ush = list(c.get("xshape") or [c["n"]]), list(c.get("ushape") or [c["m"]])
     if c["kind"] == "gm":
-        oracle_gm(ctx, P, x0, 1.0, bool(c["accel"]), 300, origin)
+        lo = dict(xshape=xsh, x=c.get("xlay", "C"), out=c.get("olay", "C"), prox=c.get("proxk", "obj"))
+        oracle_gm(ctx, P, x0, 1.0, bool(c["accel"]), 300, origin, None, lo)
         return
+    lo = dict(xshape=xsh, ushape=ush, x=c.get("xlay", "C"), u=c.get("ulay", "C"), out=c.get("olay", "C"),
+              steps=c.get("tlay", "C"), prox=c.get("proxk", "obj"))
     u0 = np.array(build_vec(cc, "u0"), dtype=P["A"].dtype)
     arr = c["tau"][0] == "a"
     tau, sigma = pd_steps(rng, P, arr)
@@ -971,10 +1264,10 @@ def oracle_on_case(ctx, c, origin):
         gp = min(gp, float(F(gk[1])))
     elif gp > 0:
         gp = 0
-    oracle_pd(ctx, P, P["xs"].copy(), P["us"].copy(), tau, sigma, gp, gd, 40, "saddle", origin)
+    oracle_pd(ctx, P, P["xs"].copy(), P["us"].copy(), tau, sigma, gp, gd, 40, "saddle", origin, lo)
     if gp == 0 and gd == 0:
-        oracle_pd(ctx, P, x0, u0, tau, sigma, 0, 0, 150, "fejer", origin)
-    oracle_pd(ctx, P, x0, u0, tau, sigma, gp, gd, 3000, "converge", origin)
+        oracle_pd(ctx, P, x0, u0, tau, sigma, 0, 0, 150, "fejer", origin, lo)
+    oracle_pd(ctx, P, x0, u0, tau, sigma, gp, gd, 3000, "converge", origin, lo)
 
 
 def search(ctx, budget):
@@ -994,6 +1287,8 @@ def _search(ctx, budget, rng):
     for d in ctx.disagreements[:40]:
         for _ in range(3):
             oracle_on_case(ctx, d["case"], "disagreement")
+    search_layouts(ctx, rng, "search")
+    search_zero_grad(ctx, rng, "search", 1 if budget <= 1 else 3)
     search_worstcase(ctx, rng, "search")
     n = int(10 * budget)
     for i in range(n):
@@ -1009,19 +1304,20 @@ def replay(path):
     ctx = common.Ctx(PROPERTY, "quick", 0)
     warm_up()
     P = P_of(d)
-    P["conv_tol"] = 1e-6
+    P["conv_tol"] = d.get("conv_tol") or 1e-6
 
     def cv(re, im):
         re = np.array(re, dtype=float)
         return (re + 1j * np.array(im, dtype=float)) if im is not None else re.astype(P["A"].dtype)
     x0 = cv(d["x0_re"], d["x0_im"]).astype(P["A"].dtype)
     if d["oracle"] == "gm":
-        ok = oracle_gm(ctx, P, x0, d["c_alpha"], d["accel"], d["K"], "replay")
+        w_extra = cv(d["w_extra_re"], d.get("w_extra_im")).astype(P["A"].dtype) if d.get("w_extra_re") is not None else None
+        ok = oracle_gm(ctx, P, x0, d["c_alpha"], d["accel"], d["K"], "replay", w_extra, d.get("layout"))
     else:
         u0 = cv(d["u0_re"], d["u0_im"]).astype(P["A"].dtype)
         tau = np.array(d["tau"]) if isinstance(d["tau"], list) else d["tau"]
         sigma = np.array(d["sigma"]) if isinstance(d["sigma"], list) else d["sigma"]
-        ok = oracle_pd(ctx, P, x0, u0, tau, sigma, d["gp"], d["gd"], d["K"], d["what"], "replay")
+        ok = oracle_pd(ctx, P, x0, u0, tau, sigma, d["gp"], d["gd"], d["K"], d["what"], "replay", d.get("layout"))
     for f in ctx.failures:
         print("observed:", f["observed"], "expected:", f["expected"])
     print("replay:", "property holds on this input" if ok else "property FAILS on this input")
